@@ -90,7 +90,7 @@ DUMP_NAMES = "[" + ";".join(f"{n}={{{{ {n} }}}}" for n in POOL) + "]"
 DUMP = (
     "[" + ";".join(f"{n}={{{{ {n} }}}}" for n in POOL)
     + ";fl={{ forloop.index }}/{{ forloop.length }}/{{ forloop.parentloop.index }}"
-    + ";tr={{ tablerowloop.index }}]"
+    + ";tr={{ tablerowloop.index }};ar={{ args }};kw={{ kwargs }}]"
 )
 
 
@@ -467,9 +467,15 @@ class Pair:
     def _wraps(self) -> list[dict[str, Any]]:
         r = self.r
         out: list[dict[str, Any]] = []
-        for _ in range(r.choice([0, 1, 1, 2])):
-            kind = r.choice(["for", "for", "with", "capture", "include", "tablerow", "macro", "render"])
+        for _ in range(r.choice([0, 1, 1, 2, 2, 3])):
+            kind = r.choice(["for", "for", "with", "capture", "include", "tablerow", "macro", "macro", "render",
+                             "render"])
             n = r.choice(POOL)
+            if kind == "capture":
+                # the captured text is printed through the name: it must not be shadowed by an
+                # enclosing wrapper's block-scoped name
+                free = [x for x in POOL if x not in {w["name"] for w in out}]
+                n = r.choice(free) if free else n
             if kind == "tablerow" and any(w["kind"] == "tablerow" for w in out):
                 kind = "for"  # (liquid2 does not parse a tablerow nested in a tablerow)
             if kind == "tablerow":
@@ -491,10 +497,20 @@ class Pair:
                     args = [f" with 'I1' as {n}", f" with 'I2' as {n}"]
                 else:
                     args = [f" for gs as {n}"] * 2
-                w = {"inc_args": args}
+                w = {"inc_args": args, "form": form}
             else:  # enclosing macro whose parameter must not reach the partial
-                w = {"open": [f"{{% macro outer {n} %}}"] * 2,
-                     "close_v": ["{% endmacro %}{% call outer 'M1' %}", "{% endmacro %}{% call outer 'M2' %}"]}
+                mname = f"outer{len(out)}"
+                form = r.choice(["pos", "kw", "default", "excess"])
+                if form == "pos":
+                    opn, calls = f"{{% macro {mname} {n} %}}", [f"{{% call {mname} 'M1' %}}", f"{{% call {mname} 'M2' %}}"]
+                elif form == "kw":
+                    opn, calls = f"{{% macro {mname} {n} %}}", [f"{{% call {mname} {n}: 'M1' %}}", f"{{% call {mname} {n}: 'M2' %}}"]
+                elif form == "default":  # (defaults are evaluated in the caller: literals only)
+                    opn, calls = f"{{% macro {mname} zq, {n}: 'M0' %}}", [f"{{% call {mname} 1, 'M1' %}}", f"{{% call {mname} 1, 'M2' %}}"]
+                else:  # surplus arguments land in args / kwargs of the enclosing macro
+                    opn, calls = f"{{% macro {mname} {n} %}}", [f"{{% call {mname} 'M1', 'X1', zk: 'K1' %}}",
+                                                              f"{{% call {mname} 'M2', 'X2', zk: 'K2' %}}"]
+                w = {"open": [opn] * 2, "close_v": ["{% endmacro %}" + c for c in calls], "form": form}
             w["kind"] = kind
             w["name"] = n
             out.append(w)
@@ -1633,6 +1649,13 @@ def floors(tier: str) -> dict[str, int]:
         "fault_injections_raised": 500 * k,
         "lambda_scopes_pushed": 500 * k,
         "pairs_inside_overriding_block": 300 * k,
+        "pairs_all_empty_data": 600 * k,
+        "pairs_other_data_layers": 600 * k,
+        "pairs_nested_isolation_depth_ge2": 600 * k,
+        "pairs_nested_isolation_depth_ge3": 100 * k,
+        "pairs_nested_isolation_all_empty_data": 300 * k,
+        "set:data_layer_configs": 9,
+        "set:isolation_nests": 100,
         "set:block_wrappers": 40,
         "O3_refusals": 1000,
         "depth_sweep_raised": 100,
@@ -1681,11 +1704,13 @@ def replay(wit: dict[str, Any], ctx: Ctx) -> None:
         print(f"replay C07 oracle={oracle} key={key} mode={mode} env={kind}")
         for n, s in parts.items():
             print(f"  partial {n!r}: {s!r}")
-        env = rt.env(kind, parts)
+        env = rt.env(kind, parts, wit.get("env_globals"))
+        tg = wit.get("template_globals")
+        print(f"  data layers: {wit.get('data_layers', 'full')} args={data!r} env_globals={wit.get('env_globals')!r} template_globals={tg!r}")
         if oracle in ("O1", "O2"):
             outs = {}
             for name, src in wit["sources"].items():
-                res = rt.run(env, src, data, mode)
+                res = rt.run(env, src, data, mode, tglobals=tg)
                 outs[name] = res.out if res.ok else "ERR:" + res.err
                 print(f"  {name}: {src!r}\n     -> {outs[name]!r}")
             if oracle == "O1":
@@ -1699,14 +1724,14 @@ def replay(wit: dict[str, Any], ctx: Ctx) -> None:
                 if a != b:
                     ctx.violation(key, "caller output outside the region changes when the tag is removed", wit)
         elif oracle in ("O3", "O3b"):
-            res = rt.run(env, wit["source"], data, mode)
+            res = rt.run(env, wit["source"], data, mode, tglobals=tg)
             print(f"  source {wit['source']!r}\n  -> ok={res.ok} err={res.err!r} out={res.out!r}")
             if oracle == "O3" and res.err != "DisabledTagError":
                 ctx.violation(key, "include not refused", wit)
             if oracle == "O3b" and not res.ok:
                 ctx.violation(key, "include refused after the isolated construct ended", wit)
         elif oracle == "O4":
-            res = rt.run(env, wit["source"], data, mode)
+            res = rt.run(env, wit["source"], data, mode, tglobals=tg)
             print(f"  source {wit['source']!r}\n  -> ok={res.ok} err={res.err!r} out={res.out!r}")
             n, bad = o4_check(res.out) if res.ok else (0, [])
             print(f"  probe pairs={n} mismatches={bad!r}")
@@ -1715,7 +1740,7 @@ def replay(wit: dict[str, Any], ctx: Ctx) -> None:
         elif oracle == "O6":
             outs = []
             for arr in (wit["items"], wit["permuted"]):
-                res = rt.run(env, wit["source"], {**data, "arr": arr}, mode)
+                res = rt.run(env, wit["source"], {**data, "arr": arr}, mode, tglobals=tg)
                 outs.append(res.out if res.ok else "ERR:" + res.err)
                 print(f"  arr={arr!r} -> {outs[-1]!r}")
             a, b = o6_regions(outs[0]), o6_regions(outs[1])
@@ -1725,7 +1750,7 @@ def replay(wit: dict[str, Any], ctx: Ctx) -> None:
         else:  # O5
             fault = wit.get("fault")
             plan = FaultPlan(*fault) if fault else None
-            res = rt.run(env, wit["source"], data, mode, own=bool(wit.get("own")), plan=plan)
+            res = rt.run(env, wit["source"], data, mode, own=bool(wit.get("own")), plan=plan, tglobals=tg)
             print(f"  source {wit['source']!r}\n  -> ok={res.ok} err={res.err!r}")
             for k, what, detail in res.events:
                 print(f"  monitor event {k}: {what} {detail}")
